@@ -6,6 +6,7 @@ import (
 	"strconv"
 
 	"golang.org/x/tools/go/ssa"
+	"gopkg.in/yaml.v3"
 )
 
 const (
@@ -114,6 +115,16 @@ func (e *Engine) yamlIntrinsic(fn *ssa.Function, full string, args []Value) (Val
 		}
 		if !isIfaceType(outI.typ.Underlying().(*types.Pointer).Elem()) {
 			unsupported("yaml.Node.Decode into non-interface %v", outI.typ)
+		}
+		if tag == "" || tag == "!" {
+			// untagged scalar: yaml.v3 resolves the plain spelling (quoted styles are strings)
+			style := *structField(nt, sv, "Style")
+			if st, ok := style.(*Term); ok && st.konst && st.iv&(int64(yaml.SingleQuotedStyle|yaml.DoubleQuotedStyle|yaml.LiteralStyle|yaml.FoldedStyle)) != 0 {
+				tag = "!!str"
+			} else {
+				assign(out.slot, e.resolvePlainScalar(val))
+				return IfaceVal{}, true
+			}
 		}
 		switch tag {
 		case "!!str":
@@ -262,4 +273,49 @@ func (e *Engine) yamlEncodeInto(nt types.Type, sv *StructVal, iv IfaceVal, depth
 		unsupported("yaml.Node.Encode of %v", iv.typ)
 	}
 	return false
+}
+
+// resolvePlainScalar is yaml.v3's resolution of an untagged plain scalar:
+// concrete spellings are resolved by the real library; symbolic ones only when
+// they are empty (null) or consist of letters that cannot spell a special
+// word of their length.
+func (e *Engine) resolvePlainScalar(val StrVal) IfaceVal {
+	if val.atom != nil {
+		return IfaceVal{typ: types.Typ[types.String], val: val}
+	}
+	if s, ok := concreteStr(val); ok {
+		n := yaml.Node{Kind: yaml.ScalarNode, Value: s}
+		var x any
+		if err := n.Decode(&x); err != nil {
+			unsupported("yaml: cannot resolve plain scalar %q: %v", s, err)
+		}
+		switch v := x.(type) {
+		case nil:
+			return IfaceVal{}
+		case string:
+			return IfaceVal{typ: types.Typ[types.String], val: mkStr(v)}
+		case bool:
+			return IfaceVal{typ: types.Typ[types.Bool], val: mkBool(v)}
+		case int:
+			return IfaceVal{typ: types.Typ[types.Int], val: mkInt(int64(v))}
+		case float64:
+			return IfaceVal{typ: types.Typ[types.Float64], val: FloatVal{v}}
+		}
+		unsupported("yaml: plain scalar %q resolves to %T", s, x)
+	}
+	if len(val.bytes) == 0 {
+		return IfaceVal{}
+	}
+	for _, b := range val.bytes {
+		letter := tOr(tAnd(tCmp("<=", mkInt('a'), b), tCmp("<=", b, mkInt('z'))), tAnd(tCmp("<=", mkInt('A'), b), tCmp("<=", b, mkInt('Z'))))
+		if !e.decide(letter) {
+			unsupported("yaml: untagged plain scalar with a symbolic non-letter byte")
+		}
+	}
+	for _, w := range []string{"true", "True", "TRUE", "false", "False", "FALSE", "null", "Null", "NULL"} {
+		if len(w) == len(val.bytes) && e.decide(strEq(val, mkStr(w))) {
+			return e.resolvePlainScalar(mkStr(w))
+		}
+	}
+	return IfaceVal{typ: types.Typ[types.String], val: val}
 }
